@@ -1,7 +1,7 @@
 import CookModel.Lemmas.FragTimer
 /-
   C05 at fragment level, ALL block shapes and the whole token stream: the sweep of `Lemmas/CoverAll.lean`
-  redone with the queue predicate `FQ` ("an `Error` was pushed, or every content token (`Core`) before the
+  redone with the queue predicate `FragQ` ("an `Error` was pushed, or every content token (`CoreTok`) before the
   cursor, and those of the earlier blocks, is CARRIED by an event": inside one fragment of one of its
   texts, or inside the span of its modifiers / number).
 -/
@@ -18,23 +18,23 @@ def TokCarried (cs : CharSpec) (evs : Array (Ev α)) (t : Tok) : Prop :=
 
 /-- the queue has an error, or: the tokens of `K` (earlier blocks) and the content tokens of the block
     before position `n` are carried -/
-def FQ (cs : CharSpec) (K : Tok → Prop) (ts : List Tok) (n : Nat) (evs : Array (Ev α)) : Prop :=
-  HasErr evs ∨ ((∀ t, K t → TokCarried cs evs t) ∧
-    ∀ i, i < n → ∀ t, ts[i]? = some t → Core cs t → TokCarried cs evs t)
+def FragQ (cs : CharSpec) (K : Tok → Prop) (ts : List Tok) (n : Nat) (evs : Array (Ev α)) : Prop :=
+  HasErrEv evs ∨ ((∀ t, K t → TokCarried cs evs t) ∧
+    ∀ i, i < n → ∀ t, ts[i]? = some t → CoreTok cs t → TokCarried cs evs t)
 
 variable {cs : CharSpec} {K : Tok → Prop} {ts : List Tok} {e : Ext} {s : BP α} {off : Nat} {w : List Char}
 
-theorem FQ.push {n : Nat} {evs : Array (Ev α)} (h : FQ cs K ts n evs) (ev : Ev α) : FQ cs K ts n (evs.push ev) := by
+theorem FragQ.push {n : Nat} {evs : Array (Ev α)} (h : FragQ cs K ts n evs) (ev : Ev α) : FragQ cs K ts n (evs.push ev) := by
   rcases h with h | ⟨h1, h2⟩
   · exact Or.inl (h.push ev)
   · exact Or.inr ⟨fun t ht => (h1 t ht).push ev, fun i hi t ht hc => (h2 i hi t ht hc).push ev⟩
 
-theorem FQ.up {n : Nat} : UpP (FQ (α := α) cs K ts n) := fun _ ev h => h.push ev
+theorem FragQ.up {n : Nat} : UpP (FragQ (α := α) cs K ts n) := fun _ ev h => h.push ev
 
-theorem FQ.advance {n n' : Nat} {evs : Array (Ev α)} (h : FQ cs K ts n evs)
-    (hn : ∀ i, n ≤ i → i < n' → ∀ t, ts[i]? = some t → Core cs t → HasErr evs ∨ TokCarried cs evs t) :
-    FQ cs K ts n' evs := by
-  by_cases he : HasErr evs
+theorem FragQ.advance {n n' : Nat} {evs : Array (Ev α)} (h : FragQ cs K ts n evs)
+    (hn : ∀ i, n ≤ i → i < n' → ∀ t, ts[i]? = some t → CoreTok cs t → HasErrEv evs ∨ TokCarried cs evs t) :
+    FragQ cs K ts n' evs := by
+  by_cases he : HasErrEv evs
   · exact Or.inl he
   · rcases h with h | ⟨h1, h2⟩
     · exact Or.inl h
@@ -45,17 +45,17 @@ theorem FQ.advance {n n' : Nat} {evs : Array (Ev α)} (h : FQ cs K ts n evs)
         · exact absurd h'' he
         · exact h''
 
-theorem FQ.pushCover {n n' : Nat} {evs : Array (Ev α)} (h : FQ cs K ts n evs) (ev : Ev α)
-    (hn : ∀ i, n ≤ i → i < n' → ∀ t, ts[i]? = some t → Core cs t →
-      HasErr evs ∨ ev.carries cs (tokBodyStart t) t.stop) :
-    FQ cs K ts n' (evs.push ev) :=
+theorem FragQ.pushCover {n n' : Nat} {evs : Array (Ev α)} (h : FragQ cs K ts n evs) (ev : Ev α)
+    (hn : ∀ i, n ≤ i → i < n' → ∀ t, ts[i]? = some t → CoreTok cs t →
+      HasErrEv evs ∨ ev.carries cs (tokBodyStart t) t.stop) :
+    FragQ cs K ts n' (evs.push ev) :=
   (h.push ev).advance (fun i h1 h2 t ht hc => by
     rcases hn i h1 h2 t ht hc with h' | h'
     · exact Or.inl (h'.push ev)
     · exact Or.inr ⟨ev, by simp, h'⟩)
 
-theorem GE.fqAdv {n n' : Nat} (h : GE (FQ cs K ts n) ts e s)
-    (hn : ∀ i, n ≤ i → i < n' → ∀ t, ts[i]? = some t → ¬ Core cs t) : GE (FQ cs K ts n') ts e s :=
+theorem GE.fqAdv {n n' : Nat} (h : GE (FragQ cs K ts n) ts e s)
+    (hn : ∀ i, n ≤ i → i < n' → ∀ t, ts[i]? = some t → ¬ CoreTok cs t) : GE (FragQ cs K ts n') ts e s :=
   h.mono (fun hi => hi.advance (fun i a b t ht hc => absurd hc (hn i a b t ht)))
 
 /-! ### the character tables are kept -/
@@ -69,21 +69,21 @@ theorem stepOne_fragGA : IndGA fragFlags (stepOne (α := α)) := by
 
 /-! ### steps, with components -/
 
-theorem stepOne_fq (hw : WFI off w ts) (hz : Boundary off w 0) (h : GE (FQ cs K ts s.cur) ts e s)
+theorem stepOne_fq (hw : WFI off w ts) (hz : Boundary off w 0) (h : GE (FragQ cs K ts s.cur) ts e s)
     (hcs : s.cs = cs) (hlt : s.cur < ts.length) :
-    Sat (stepOne (α := α)) s (fun _ s' => GE (FQ cs K ts s'.cur) ts e s' ∧ s.cur < s'.cur) := by
-  have hup : UpP (FQ (α := α) cs K ts s.cur) := FQ.up
-  have hc : Ctx off w (FQ (α := α) cs K ts s.cur) ts := upCtx hw hup
+    Sat (stepOne (α := α)) s (fun _ s' => GE (FragQ cs K ts s'.cur) ts e s' ∧ s.cur < s'.cur) := by
+  have hup : UpP (FragQ (α := α) cs K ts s.cur) := FragQ.up
+  have hc : Ctx off w (FragQ (α := α) cs K ts s.cur) ts := upCtx hw hup
   unfold stepOne
   apply Sat.bind
-  apply Sat.mono (Q := fun r s' => GE (FQ cs K ts s.cur) ts e s' ∧
+  apply Sat.mono (Q := fun r s' => GE (FragQ cs K ts s.cur) ts e s' ∧
     match r with
     | none => s'.cur = s.cur
     | some ev => s.cur < s'.cur ∧ CompGood cs ts s.cur (some ev) s')
   · have comp : ∀ (p : P α (Option (Ev α))),
-        (∀ s0 : BP α, GE (FQ cs K ts s.cur) ts e s0 → s0.cs = cs → Sat p s0 (fun r s' =>
-          GE (FQ cs K ts s.cur) ts e s' ∧ (r.isSome = true → s0.cur < s'.cur) ∧ CompGood cs ts s0.cur r s')) →
-        Sat (withRecover p) s (fun r s' => GE (FQ cs K ts s.cur) ts e s' ∧
+        (∀ s0 : BP α, GE (FragQ cs K ts s.cur) ts e s0 → s0.cs = cs → Sat p s0 (fun r s' =>
+          GE (FragQ cs K ts s.cur) ts e s' ∧ (r.isSome = true → s0.cur < s'.cur) ∧ CompGood cs ts s0.cur r s')) →
+        Sat (withRecover p) s (fun r s' => GE (FragQ cs K ts s.cur) ts e s' ∧
           match r with
           | none => s'.cur = s.cur
           | some ev => s.cur < s'.cur ∧ CompGood cs ts s.cur (some ev) s') := by
@@ -128,7 +128,7 @@ theorem stepOne_fq (hw : WFI off w ts) (hz : Boundary off w 0) (h : GE (FQ cs K 
     have hr : RunAt (offAt ts s1.cur) ((s3.toks.take s3.cur).drop s1.cur) := by
       rw [g3.g.toks]; exact slice_runAt hw.wf.run hle
     refine Sat.bind (bpText_sat hr ?_)
-    have hcov : ∀ i, s1.cur ≤ i → i < s3.cur → ∀ t, ts[i]? = some t → Core cs t →
+    have hcov : ∀ i, s1.cur ≤ i → i < s3.cur → ∀ t, ts[i]? = some t → CoreTok cs t →
         (buildText (offAt ts s1.cur) ((s3.toks.take s3.cur).drop s1.cur)).holds (tokBodyStart t) t.stop := by
       intro i k1 k2 t ht hct
       have hm : t ∈ (s3.toks.take s3.cur).drop s1.cur := by rw [g3.g.toks]; exact cover_mem_slice k1 k2 ht
@@ -148,8 +148,8 @@ theorem stepOne_fq (hw : WFI off w ts) (hz : Boundary off w 0) (h : GE (FQ cs K 
       | cons _ _ => simp
 
 theorem stepLoop_fq (hw : WFI off w ts) (hz : Boundary off w 0) (fuel : Nat)
-    (h : GE (FQ cs K ts s.cur) ts e s) (hcs : s.cs = cs) (hf : ts.length - s.cur ≤ fuel) :
-    Sat (stepLoop (α := α) fuel) s (fun _ s' => GE (FQ cs K ts ts.length) ts e s' ∧ s'.cur = ts.length) := by
+    (h : GE (FragQ cs K ts s.cur) ts e s) (hcs : s.cs = cs) (hf : ts.length - s.cur ≤ fuel) :
+    Sat (stepLoop (α := α) fuel) s (fun _ s' => GE (FragQ cs K ts ts.length) ts e s' ∧ s'.cur = ts.length) := by
   have hle := h.le
   induction fuel generalizing s with
   | zero =>
@@ -173,12 +173,12 @@ theorem stepLoop_fq (hw : WFI off w ts) (hz : Boundary off w 0) (fuel : Nat)
       rintro _ s1 ⟨⟨g1, c1⟩, cs1⟩
       exact ih g1 (by rw [cs1, hcs]) (by omega) g1.le
 
-theorem parseStep_fq (hw : WFI off w ts) (hz : Boundary off w 0) (h : GE (FQ cs K ts s.cur) ts e s)
+theorem parseStep_fq (hw : WFI off w ts) (hz : Boundary off w 0) (h : GE (FragQ cs K ts s.cur) ts e s)
     (hcs : s.cs = cs) :
-    Sat (parseStep (α := α)) s (fun _ s' => GE (FQ cs K ts ts.length) ts e s' ∧ s'.cur = ts.length) := by
+    Sat (parseStep (α := α)) s (fun _ s' => GE (FragQ cs K ts ts.length) ts e s' ∧ s'.cur = ts.length) := by
   unfold parseStep
   refine Sat.bind (Sat.pushEv ?_)
-  have g1 : GE (FQ cs K ts s.cur) ts e { s with evs := s.evs.push (.start .step) } := h.push (h.evs.push _)
+  have g1 : GE (FragQ cs K ts s.cur) ts e { s with evs := s.evs.push (.start .step) } := h.push (h.evs.push _)
   refine Sat.bind (restToks_sat g1.g ?_)
   refine Sat.bind (Sat.mono (stepLoop_fq hw hz _ g1 hcs (by simp)) ?_)
   rintro _ s2 ⟨g2, c2⟩
@@ -186,9 +186,9 @@ theorem parseStep_fq (hw : WFI off w ts) (hz : Boundary off w 0) (h : GE (FQ cs 
 
 /-! ### text blocks -/
 
-theorem textLineK_fq (hw : WFI off w ts) (h : GE (FQ cs K ts s.cur) ts e s) (hcs : s.cs = cs)
+theorem textLineK_fq (hw : WFI off w ts) (h : GE (FragQ cs K ts s.cur) ts e s) (hcs : s.cs = cs)
     (k : P α Unit) (Q : Unit → BP α → Prop)
-    (hk : ∀ (s2 : BP α), GE (FQ cs K ts s2.cur) ts e s2 → s2.cs = cs → s.cur ≤ s2.cur →
+    (hk : ∀ (s2 : BP α), GE (FragQ cs K ts s2.cur) ts e s2 → s2.cs = cs → s.cur ≤ s2.cur →
       (s.cur < ts.length → s.cur < s2.cur) → Sat k s2 Q) :
     Sat (textLineK (α := α) k) s Q := by
   unfold textLineK
@@ -223,7 +223,7 @@ theorem textLineK_fq (hw : WFI off w ts) (h : GE (FQ cs K ts s.cur) ts e s) (hcs
   have hr : RunAt (offAt ts s.cur) ((s2.toks.take s2.cur).drop s.cur) := by
     rw [g2.g.toks]; exact slice_runAt hw.wf.run hle
   refine Sat.bind (bpText_sat hr ?_)
-  have hcov : ∀ i, s.cur ≤ i → i < s2.cur → ∀ t, ts[i]? = some t → Core cs t →
+  have hcov : ∀ i, s.cur ≤ i → i < s2.cur → ∀ t, ts[i]? = some t → CoreTok cs t →
       (buildText (offAt ts s.cur) ((s2.toks.take s2.cur).drop s.cur)).isTextEmpty s2.cs = false ∧
       (buildText (offAt ts s.cur) ((s2.toks.take s2.cur).drop s.cur)).holds (tokBodyStart t) t.stop := by
     intro i k1 k2 t ht hct
@@ -243,10 +243,10 @@ theorem textLineK_fq (hw : WFI off w ts) (h : GE (FQ cs K ts s.cur) ts e s) (hcs
     apply hemp
     rw [m2]; rfl
 
-theorem textBlockLoop_fq (hw : WFI off w ts) (fuel : Nat) (h : GE (FQ cs K ts s.cur) ts e s)
+theorem textBlockLoop_fq (hw : WFI off w ts) (fuel : Nat) (h : GE (FragQ cs K ts s.cur) ts e s)
     (hcs : s.cs = cs) (hf : ts.length - s.cur ≤ fuel) :
     Sat (textBlockLoop (α := α) fuel) s
-      (fun _ s' => GE (FQ cs K ts ts.length) ts e s' ∧ s'.cur = ts.length) := by
+      (fun _ s' => GE (FragQ cs K ts ts.length) ts e s' ∧ s'.cur = ts.length) := by
   have hle := h.le
   induction fuel generalizing s with
   | zero =>
@@ -266,9 +266,9 @@ theorem textBlockLoop_fq (hw : WFI off w ts) (fuel : Nat) (h : GE (FQ cs K ts s.
       exact Sat.pure ⟨by rw [← e1]; exact h, e1⟩
     · rename_i hemp
       have hlt := drop_isEmpty_false (by simpa using hemp)
-      have tail : ∀ s1 : BP α, GE (FQ cs K ts s1.cur) ts e s1 → s1.cs = cs → s.cur ≤ s1.cur →
+      have tail : ∀ s1 : BP α, GE (FragQ cs K ts s1.cur) ts e s1 → s1.cs = cs → s.cur ≤ s1.cur →
           Sat (textLineK (α := α) (textBlockLoop fuel)) s1
-            (fun _ s' => GE (FQ cs K ts ts.length) ts e s' ∧ s'.cur = ts.length) := by
+            (fun _ s' => GE (FragQ cs K ts ts.length) ts e s' ∧ s'.cur = ts.length) := by
         intro s1 g1 cs1 c1
         refine textLineK_fq hw g1 cs1 _ _ ?_
         intro s2 g2 cs2 c2 hp
@@ -284,7 +284,7 @@ theorem textBlockLoop_fq (hw : WFI off w ts) (fuel : Nat) (h : GE (FQ cs K ts s.
       | none => exact tail s1 (by rw [h1.1]; exact g1) (by rw [cs1, hcs]) (by omega)
       | some m =>
         obtain ⟨hm, hmk, c1⟩ := h1
-        have g1' : GE (FQ cs K ts s1.cur) ts e s1 := by
+        have g1' : GE (FragQ cs K ts s1.cur) ts e s1 := by
           refine g1.fqAdv ?_
           intro i k1 k2 t ht hct
           have : i = s.cur := by omega
@@ -310,12 +310,12 @@ theorem textBlockLoop_fq (hw : WFI off w ts) (fuel : Nat) (h : GE (FQ cs K ts s.
           subst ht
           exact hct.1.2.2.1 hwk
 
-theorem parseTextBlock_fq (hw : WFI off w ts) (h : GE (FQ cs K ts s.cur) ts e s) (hcs : s.cs = cs) :
+theorem parseTextBlock_fq (hw : WFI off w ts) (h : GE (FragQ cs K ts s.cur) ts e s) (hcs : s.cs = cs) :
     Sat (parseTextBlock (α := α)) s
-      (fun _ s' => GE (FQ cs K ts ts.length) ts e s' ∧ s'.cur = ts.length) := by
+      (fun _ s' => GE (FragQ cs K ts ts.length) ts e s' ∧ s'.cur = ts.length) := by
   unfold parseTextBlock
   refine Sat.bind (Sat.pushEv ?_)
-  have g1 : GE (FQ cs K ts s.cur) ts e { s with evs := s.evs.push (.start .text) } := h.push (h.evs.push _)
+  have g1 : GE (FragQ cs K ts s.cur) ts e { s with evs := s.evs.push (.start .text) } := h.push (h.evs.push _)
   refine Sat.bind (restToks_sat g1.g ?_)
   refine Sat.bind (Sat.mono (textBlockLoop_fq hw _ g1 hcs (by simp)) ?_)
   rintro _ s2 ⟨g2, c2⟩
@@ -325,7 +325,7 @@ theorem parseTextBlock_fq (hw : WFI off w ts) (h : GE (FQ cs K ts s.cur) ts e s)
 
 /-- every content token of the block is carried by the event -/
 def EvCarriesAll (cs : CharSpec) (ts : List Tok) (ev : Ev α) : Prop :=
-  ∀ (i : Nat) (t : Tok), ts[i]? = some t → Core cs t → ev.carries cs (tokBodyStart t) t.stop
+  ∀ (i : Nat) (t : Tok), ts[i]? = some t → CoreTok cs t → ev.carries cs (tokBodyStart t) t.stop
 
 theorem sectionP_fq (hw : WFI off w ts) (h : G ts e s) (h0 : s.cur = 0) (hcs : s.cs = cs) :
     Sat (sectionP (α := α)) s (fun r _ => ∀ ev, r = some ev → EvCarriesAll cs ts ev) := by
@@ -464,9 +464,9 @@ theorem metadataEntry_fq (hw : WFI off w ts) (h : G ts e s) (h0 : s.cur = 0) :
 /-! ### blocks -/
 
 theorem parseMultilineBlock_fq (hw : WFI off w ts) (hz : Boundary off w 0)
-    (h : GE (FQ cs K ts s.cur) ts e s) (hcs : s.cs = cs) :
+    (h : GE (FragQ cs K ts s.cur) ts e s) (hcs : s.cs = cs) :
     Sat (parseMultilineBlock (α := α)) s
-      (fun _ s' => GE (FQ cs K ts ts.length) ts e s' ∧ s'.cur = ts.length) := by
+      (fun _ s' => GE (FragQ cs K ts ts.length) ts e s' ∧ s'.cur = ts.length) := by
   unfold parseMultilineBlock
   refine Sat.bind (allToks_sat h.g ?_)
   split
@@ -484,13 +484,13 @@ theorem parseMultilineBlock_fq (hw : WFI off w ts) (hz : Boundary off w 0)
     · exact parseStep_fq hw hz h hcs
 
 theorem parseBlock_fq (oldStyle : Bool) (hw : WFI off w ts) (hz : Boundary off w 0)
-    (h : GE (FQ cs K ts 0) ts e s) (h0 : s.cur = 0) (hcs : s.cs = cs) :
+    (h : GE (FragQ cs K ts 0) ts e s) (h0 : s.cur = 0) (hcs : s.cs = cs) :
     Sat (parseBlock (α := α) oldStyle) s
-      (fun _ s' => GE (FQ cs K ts ts.length) ts e s' ∧ s'.cur = ts.length) := by
-  have hc : Ctx off w (FQ (α := α) cs K ts 0) ts := upCtx hw FQ.up
+      (fun _ s' => GE (FragQ cs K ts ts.length) ts e s' ∧ s'.cur = ts.length) := by
+  have hc : Ctx off w (FragQ (α := α) cs K ts 0) ts := upCtx hw FragQ.up
   unfold parseBlock
   apply Sat.bind
-  apply Sat.mono (Q := fun r s' => GE (FQ cs K ts 0) ts e s' ∧ s'.cs = cs ∧
+  apply Sat.mono (Q := fun r s' => GE (FragQ cs K ts 0) ts e s' ∧ s'.cs = cs ∧
     match r with
     | none => s'.cur = 0
     | some ev => s'.cur = ts.length ∧ EvCarriesAll cs ts ev)
@@ -528,9 +528,9 @@ theorem parseBlock_fq (oldStyle : Bool) (hw : WFI off w ts) (hz : Boundary off w
 
 /-- **one block, any shape** -/
 theorem runBlock_fq (cs : CharSpec) (ext : Ext) (oldStyle : Bool) (blk : List Tok) (evs : Array (Ev α))
-    (hw : WFI off w blk) (hz : Boundary off w 0) (hK : FQ cs K blk 0 evs) :
-    FQ cs K blk blk.length (runBlock cs ext oldStyle blk evs none).1 := by
-  have g0 : GE (FQ cs K blk 0) blk ext (⟨blk, 0, ext, cs, evs, none⟩ : BP α) :=
+    (hw : WFI off w blk) (hz : Boundary off w 0) (hK : FragQ cs K blk 0 evs) :
+    FragQ cs K blk blk.length (runBlock cs ext oldStyle blk evs none).1 := by
+  have g0 : GE (FragQ cs K blk 0) blk ext (⟨blk, 0, ext, cs, evs, none⟩ : BP α) :=
     ⟨⟨rfl, rfl, rfl, Nat.zero_le _⟩, hK⟩
   have hne : blk.isEmpty = false := by
     have := hw.ne
@@ -540,7 +540,7 @@ theorem runBlock_fq (cs : CharSpec) (ext : Ext) (oldStyle : Bool) (blk : List To
       parseBlock (α := α) oldStyle
       let s ← get
       if s.cur ≠ s.toks.length then panicWith "Block tokens not parsed") ⟨blk, 0, ext, cs, evs, none⟩
-      (fun _ s' => FQ cs K blk blk.length s'.evs) := by
+      (fun _ s' => FragQ cs K blk blk.length s'.evs) := by
     simp only [hne, Bool.false_eq_true, if_false]
     refine Sat.bind (Sat.mono (parseBlock_fq oldStyle hw hz g0 rfl rfl) ?_)
     rintro _ s1 ⟨g1, c1⟩
@@ -555,11 +555,11 @@ theorem runBlock_fq (cs : CharSpec) (ext : Ext) (oldStyle : Bool) (blk : List To
 theorem foldl_runBlock_fq (cs : CharSpec) (ext : Ext) (oldStyle : Bool) (blocks : List (List Tok))
     (K : Tok → Prop) (acc : Array (Ev α) × Option String) {b : Nat} (hz : Boundary off w 0)
     (hbl : BlocksIn off w b blocks) (hp : acc.2 = none)
-    (hK : HasErr acc.1 ∨ ∀ t, K t → TokCarried cs acc.1 t) :
-    HasErr (blocks.foldl (fun acc blk => runBlock (α := α) cs ext oldStyle blk acc.1 acc.2) acc).1 ∨
+    (hK : HasErrEv acc.1 ∨ ∀ t, K t → TokCarried cs acc.1 t) :
+    HasErrEv (blocks.foldl (fun acc blk => runBlock (α := α) cs ext oldStyle blk acc.1 acc.2) acc).1 ∨
     ((∀ t, K t → TokCarried cs
       (blocks.foldl (fun acc blk => runBlock (α := α) cs ext oldStyle blk acc.1 acc.2) acc).1 t) ∧
-    ∀ blk ∈ blocks, ∀ t ∈ blk, Core cs t → TokCarried cs
+    ∀ blk ∈ blocks, ∀ t ∈ blk, CoreTok cs t → TokCarried cs
       (blocks.foldl (fun acc blk => runBlock (α := α) cs ext oldStyle blk acc.1 acc.2) acc).1 t) := by
   induction blocks generalizing K acc b with
   | nil =>
@@ -570,13 +570,13 @@ theorem foldl_runBlock_fq (cs : CharSpec) (ext : Ext) (oldStyle : Bool) (blocks 
     rw [List.foldl_cons]
     obtain ⟨hw, hb, hrest⟩ := hbl
     have h1 := runBlock_no_panic (α := α) cs ext oldStyle blk acc.1 hw.wf
-    have hK0 : FQ cs K blk 0 acc.1 := by
+    have hK0 : FragQ cs K blk 0 acc.1 := by
       rcases hK with h | h
       · exact Or.inl h
       · exact Or.inr ⟨h, fun i hi => absurd hi (Nat.not_lt_zero _)⟩
     have hcov := runBlock_fq (K := K) cs ext oldStyle blk acc.1 hw hz hK0
-    have hnext : HasErr (runBlock (α := α) cs ext oldStyle blk acc.1 acc.2).1 ∨
-        ∀ t, (K t ∨ (t ∈ blk ∧ Core cs t)) →
+    have hnext : HasErrEv (runBlock (α := α) cs ext oldStyle blk acc.1 acc.2).1 ∨
+        ∀ t, (K t ∨ (t ∈ blk ∧ CoreTok cs t)) →
           TokCarried cs (runBlock (α := α) cs ext oldStyle blk acc.1 acc.2).1 t := by
       rw [hp]
       rcases hcov with h | ⟨k1, k2⟩
@@ -586,7 +586,7 @@ theorem foldl_runBlock_fq (cs : CharSpec) (ext : Ext) (oldStyle : Bool) (blocks 
         · exact k1 t ht
         · obtain ⟨i, hi, hget⟩ := List.mem_iff_getElem.1 ht
           exact k2 i hi t (by rw [List.getElem?_eq_getElem hi, hget]) hct
-    rcases ih (fun t => K t ∨ (t ∈ blk ∧ Core cs t))
+    rcases ih (fun t => K t ∨ (t ∈ blk ∧ CoreTok cs t))
       (runBlock (α := α) cs ext oldStyle blk acc.1 acc.2) hrest (by rw [hp]; exact h1) hnext with h | ⟨k1, k2⟩
     · exact Or.inl h
     · refine Or.inr ⟨fun t ht => k1 t (Or.inl ht), ?_⟩
@@ -596,14 +596,14 @@ theorem foldl_runBlock_fq (cs : CharSpec) (ext : Ext) (oldStyle : Bool) (blocks 
       · exact k1 t (Or.inr ⟨ht, hct⟩)
       · exact k2 blk' hb' t ht hct
 
-theorem frag_core_in_block {cs : CharSpec} (ts : List Tok) {t : Tok} (ht : t ∈ ts) (hct : Core cs t) :
+theorem frag_core_in_block {cs : CharSpec} (ts : List Tok) {t : Tok} (ht : t ∈ ts) (hct : CoreTok cs t) :
     ∃ b ∈ allBlocks (ts.length + 1) ts, t ∈ b := cov_wordy_in_block ts ht hct.1
 
 /-- **the whole input**: the stream has an `Error` event, or every content token of the body is carried
     by an event of the pull parser -/
 theorem pullEvents_fq (cs : CharSpec) (ext : Ext) (input : List Char) :
-    HasErr (pullEvents (α := α) cs ext input).1 ∨
-    ∀ t ∈ bodyToks cs input, Core cs t → TokCarried cs (pullEvents (α := α) cs ext input).1 t := by
+    HasErrEv (pullEvents (α := α) cs ext input).1 ∨
+    ∀ t ∈ bodyToks cs input, CoreTok cs t → TokCarried cs (pullEvents (α := α) cs ext input).1 t := by
   have hz : Boundary 0 input 0 := Boundary.first
   have hfm := frontMatterOffsetsOK cs input
   unfold pullEvents bodyToks
